@@ -1250,6 +1250,12 @@ func (pc *PartitionContext) UpdateAllocation(alloc *objects.Allocation) (request
 	applicationID := alloc.GetApplicationID()
 	nodeID := alloc.GetNodeID()
 	node := pc.GetNode(alloc.GetNodeID())
+	// the allocation key identifies the request, and the allocation, on the application and the node: without a key
+	// the requests of different applications collide on the node they are allocated on
+	if allocationKey == "" {
+		metrics.GetSchedulerMetrics().IncSchedulingError()
+		return false, false, fmt.Errorf("allocation key is empty for an allocation of application %s", applicationID)
+	}
 
 	log.Log(log.SchedPartition).Info("processing allocation",
 		zap.String("partitionName", pc.Name),
